@@ -817,6 +817,9 @@ fn probe_main() -> ! {
 
 const KEYS: [&str; 4] = ["00000000000000a1", "3c6ef372fe94f82b", "a54ff53a5f1d36f1", "510e527fade682d1"];
 const OFFSETS: [&str; 2] = ["000000", "259200"]; // 0 and +3 days, equal length (same stack layout)
+/// clock speed that goes with each offset: the shifted environments also run every wall/monotonic clock 40x faster
+/// (elapsed' = 40 * elapsed), so a harness whose trace depends on how much real time passed differs between them
+const SCALES: [&str; 2] = ["001", "040"];
 
 #[derive(Clone, Debug, PartialEq, Eq)]
 struct Env {
@@ -828,7 +831,7 @@ struct Env {
 
 impl Env {
     fn label(&self) -> String {
-        format!("key={} clock_offset_s={}{}", KEYS[self.key], OFFSETS[self.off].trim_start_matches('0').parse::<u64>().unwrap_or(0), if self.repeat { " (repeat)" } else { "" })
+        format!("key={} clock_offset_s={} clock_speed=x{}{}", KEYS[self.key], OFFSETS[self.off].trim_start_matches('0').parse::<u64>().unwrap_or(0), SCALES[self.off].trim_start_matches('0'), if self.repeat { " (repeat)" } else { "" })
     }
     fn to_json(&self) -> J {
         json!({"key": self.key, "off": self.off, "repeat": self.repeat})
@@ -889,6 +892,7 @@ fn run_child(shim: &PathBuf, args: &[String], env: &Env) -> ChildOut {
         .env("LD_PRELOAD", shim)
         .env("VERIF_RANDOM_KEY", KEYS[env.key])
         .env("VERIF_CLOCK_OFFSET", OFFSETS[env.off])
+        .env("VERIF_CLOCK_SCALE", SCALES[env.off])
         .env("VERIF_NO_ASLR", "1")
         .stdin(Stdio::null())
         .output()
@@ -1096,7 +1100,7 @@ fn signature(c: &Case, f: &Finding) -> String {
 fn replay_json(c: &Case, f: &Finding) -> J {
     json!({"harness": c.h, "preset": c.p, "seed": c.seed, "dimension": f.dim, "field": f.field,
            "env_a": f.a.to_json(), "env_b": f.b.to_json(), "run_b": f.run_b,
-           "how": "c20 --child <harness> <preset> <seed> under LD_PRELOAD=/verif/selfcomp/shim.so VERIF_NO_ASLR=1 VERIF_RANDOM_KEY=<key> VERIF_CLOCK_OFFSET=<off>; compare field of run R1 in env_a with run R<run_b> in env_b"})
+           "how": "c20 --child <harness> <preset> <seed> under LD_PRELOAD=/verif/selfcomp/shim.so VERIF_NO_ASLR=1 VERIF_RANDOM_KEY=<key> VERIF_CLOCK_OFFSET=<off> VERIF_CLOCK_SCALE=<1|40>; compare field of run R1 in env_a with run R<run_b> in env_b"})
 }
 
 /// Verifies on every run that the shim owns what E claims. Returns evidence JSON.
@@ -1302,7 +1306,7 @@ fn main() {
     rep.finish(
         coverage,
         vec![
-            "E is owned through /verif/selfcomp/shim.so (verified at the start of every run, see coverage.shim_verification): getrandom/SYS_getrandom//dev/urandom answered from VERIF_RANDOM_KEY, realtime clocks shifted by VERIF_CLOCK_OFFSET, ASLR off. The hash-key dimension is 4 chosen keys, not all iteration orders a map can take; seeds >= S are outside the bound".into(),
+            "E is owned through /verif/selfcomp/shim.so (verified at the start of every run, see coverage.shim_verification): getrandom/SYS_getrandom//dev/urandom answered from VERIF_RANDOM_KEY, realtime clocks shifted by VERIF_CLOCK_OFFSET and, in the shifted environments, every wall/monotonic clock sped up 40x by VERIF_CLOCK_SCALE (elapsed-time dependence), ASLR off. The hash-key dimension is 4 chosen keys, not all iteration orders a map can take; seeds >= S are outside the bound".into(),
             "ahash (runtime-rng) mixes into every RandomState, besides the 64 getrandom bytes (owned), a counter advanced by the address of a heap box and started at the address of a static: with ASLR off and an empty environment these addresses are the same in all children (verified), so they are fixed, not enumerated; the same-process second run does see advanced ahash counters and std RandomState keys (k0+1 per map). Orders of ahash maps are therefore a function of (key, binary layout): reproducible for a given build of this binary, possibly different after a rebuild; orders of std maps depend on the key only".into(),
             "monotonic clocks are not shifted (std::time::Instant exposes differences only; shifting breaks absolute-deadline futex waits); the rate of time is not varied, so a decision on elapsed real time (none found in the harness paths: WriteBuffer/StreamingPersistence::should_flush is never called by the DST harnesses) would not be exercised".into(),
             "the async harnesses (streaming, compaction) run on a current-thread tokio runtime with the clock paused (their store latency is a real tokio::time::sleep of up to 100 ms per call; paused time auto-advances); thread scheduling is therefore not a dimension. Fewer operations than the presets' max_operations (300 / 200)".into(),
